@@ -11,7 +11,6 @@ open Goat.Peephole
 
 structure Prims (V H : Type) where
   untyped : Int → V                     -- newUntypedInt(k)
-  intV : Int → V                        -- Int(k)
   global : Int → V                      -- globals.Read(idx)
   add : V → V → Option V                -- opAdd … (none: panic, e.g. on non-numeric operands)
   sub : V → V → Option V
@@ -93,11 +92,11 @@ def exec1 (P : Prims V H) (call : CallSem V H) (i : Instr) (σ : State V H) : Op
         (P.set r (P.global i.b) value σ.heap).map fun h => { σ with ops := rest, heap := h }
     | [] => none
   else if i.op = "FASTGETINT" then
-    (getLocal σ i.a).bind fun r => (P.get r (P.intV i.b) σ.heap).map fun v => { σ with ops := v :: σ.ops }
+    (getLocal σ i.a).bind fun r => (P.get r (P.untyped i.b) σ.heap).map fun v => { σ with ops := v :: σ.ops }
   else if i.op = "FASTSETINT" then
     match σ.ops with
     | value :: rest => (getLocal σ i.a).bind fun r =>
-        (P.set r (P.intV i.b) value σ.heap).map fun h => { σ with ops := rest, heap := h }
+        (P.set r (P.untyped i.b) value σ.heap).map fun h => { σ with ops := rest, heap := h }
     | [] => none
   else if i.op = "GETATTR" then
     match σ.ops with
